@@ -55,13 +55,25 @@ def _run_shard(exe, lines):
     if not lines:
         return []
     data = ('\n'.join(lines) + '\n').encode()
-    p = subprocess.run([exe], input=data, capture_output=True)
-    out = p.stdout.decode('utf8', 'replace').split('\n')
+    # a runaway implementation must not take the machine down: address space and wall clock are bounded
+    # (a killed or aborted process is reported as CRASH and is itself a finding for C01)
+    def limits():
+        import resource
+        resource.setrlimit(resource.RLIMIT_AS, (3 << 30, 3 << 30))
+    try:
+        p = subprocess.run([exe], input=data, capture_output=True, preexec_fn=limits if exe == IMPL else None,
+                           timeout=max(120, len(lines) // 4))
+        stdout, rc = p.stdout, p.returncode
+    except subprocess.TimeoutExpired as e:
+        stdout, rc = e.stdout or b'', 'timeout'
+    out = stdout.decode('utf8', 'replace').split('\n')
+    if rc == 'timeout' and out and out[-1] != '':
+        out.pop()           # a partial last line
     if out and out[-1] == '':
         out.pop()
     if len(out) < len(lines):
         # the process died (abort / stack overflow / OOM): mark the first unanswered request
-        out += [f'CRASH rc={p.returncode}'] + ['UNANSWERED'] * (len(lines) - len(out) - 1)
+        out += [f'CRASH rc={rc}'] + ['UNANSWERED'] * (len(lines) - len(out) - 1)
     return out[:len(lines)]
 
 
